@@ -30,6 +30,7 @@ func checkC11(r *core.Run) {
 	c11Index(r, p)
 	c11Workers(r, p)
 	c11WorkerLocksBalanced(r, p, "R-C11-workers")
+	c11StaticDecoder(r, p, "R-C11-workers")
 }
 
 func c11Snapshot(r *core.Run, p *core.Program) {
@@ -588,39 +589,87 @@ func c11Workers(r *core.Run, p *core.Program) {
 		}
 	}
 	r.Check(okClone, rule, "commitTxs/outputs-cloned", "-", "the block-local output list is a clone, so marking outputs spent does not touch what the script verifiers read", "the block-local output list aliases tx.TxOut: marking an output spent races with script verification reading it")
-	// compression scratch buffers under their mutex
-	sc := p.Func("lib/utxo.SerializeC")
-	if sc != nil {
-		la := an.NewLockAnalysis(p)
-		held := la.HeldBefore(sc)
-		bad := ""
-		n := 0
-		an.Instrs(sc, func(i ssa.Instruction) {
-			uses := false
-			for _, op := range i.Operands(nil) {
-				if g, ok := (*op).(*ssa.Global); ok && (g.Name() == "comp_val" || g.Name() == "comp_scr") {
-					uses = true
-				}
-			}
-			if !uses {
-				return
-			}
-			n++
-			ok := false
-			for _, k := range held[i].Keys {
-				if strings.Contains(k, "comp_pool_mutex") {
-					ok = true
-				}
-			}
-			if !ok {
-				bad = p.Pos(an.InstrPos(i))
-			}
-		})
-		r.Check(bad == "" && n > 0, rule, "compress/scratch-under-mutex", p.Pos(sc.Pos()), fmt.Sprintf("%d uses of the shared scratch buffers under comp_pool_mutex", n), "the shared compression scratch buffers are used without comp_pool_mutex at "+bad)
-	}
+	compScratchHeld(r, p, rule)
 }
 
-// c11Reach: b reachable from a (any path, including loop back edges), a != b
+// compScratchHeld: SerializeC works in two passes over package-level scratch buffers (pass 1 compresses the
+// amounts and scripts into them and adds up the record size, pass 2 writes the record from them).  Every use
+// of the buffers happens with comp_pool_mutex held, and the mutex is not released anywhere between two uses:
+// a release in the middle (around the allocation, say) lets another goroutine's pass 1 overwrite what this
+// goroutine's pass 2 is about to write.
+func compScratchHeld(r *core.Run, p *core.Program, rule string) {
+	sc := p.Func("lib/utxo.SerializeC")
+	if sc == nil {
+		r.Fail(rule, "compress/scratch-under-mutex", "-", "SerializeC not found")
+		return
+	}
+	la := an.NewLockAnalysis(p)
+	held := la.HeldBefore(sc)
+	bad := ""
+	n := 0
+	var uses []ssa.Instruction
+	an.Instrs(sc, func(i ssa.Instruction) {
+		use := false
+		for _, op := range i.Operands(nil) {
+			if g, ok := (*op).(*ssa.Global); ok && (g.Name() == "comp_val" || g.Name() == "comp_scr") {
+				use = true
+			}
+		}
+		if !use {
+			return
+		}
+		n++
+		uses = append(uses, i)
+		ok := false
+		for _, k := range held[i].Keys {
+			if strings.Contains(k, "comp_pool_mutex") {
+				ok = true
+			}
+		}
+		if !ok {
+			bad = p.Pos(an.InstrPos(i))
+		}
+	})
+	r.Check(bad == "" && n > 0, rule, "compress/scratch-under-mutex", p.Pos(sc.Pos()), fmt.Sprintf("%d uses of the shared scratch buffers under comp_pool_mutex", n), "the shared compression scratch buffers are used without comp_pool_mutex at "+bad)
+	// no release between two uses
+	after := func(a, b ssa.Instruction) bool { // b can execute after a
+		if a.Block() == b.Block() {
+			if c17Before(a, b) {
+				return true
+			}
+		}
+		for _, s := range a.Block().Succs {
+			if c11Reach(s, b.Block()) {
+				return true
+			}
+		}
+		return false
+	}
+	gap := ""
+	for _, c := range an.CallsTo(sc, false, "(*sync.Mutex).Unlock") {
+		if !strings.Contains(an.Expr(c.Common().Args[0]), "comp_pool_mutex") {
+			continue
+		}
+		if _, isDefer := c.(*ssa.Defer); isDefer {
+			continue
+		}
+		ci := c.(ssa.Instruction)
+		before, behind := false, false
+		for _, u := range uses {
+			if after(u, ci) {
+				before = true
+			}
+			if after(ci, u) {
+				behind = true
+			}
+		}
+		if before && behind {
+			gap = p.Pos(an.InstrPos(ci))
+		}
+	}
+	r.Check(gap == "", rule, "compress/held-across-both-passes", p.Pos(sc.Pos()), "comp_pool_mutex is not released between the first and the last use of the scratch buffers", "comp_pool_mutex is released at "+gap+" between two uses of the scratch buffers: the second pass can see another goroutine's data")
+}
+
 func c11Reach(a, b *ssa.BasicBlock) bool {
 	seen := map[*ssa.BasicBlock]bool{}
 	st := append([]*ssa.BasicBlock{}, a.Succs...)
@@ -1012,4 +1061,63 @@ func dedupStrings(s []string) []string {
 		}
 	}
 	return out
+}
+
+// c11StaticDecoder: the "static" record decoder fills one package-level record and output pool (it saves
+// allocations for callers that look at one record at a time on the main thread).  It must not be reachable
+// from any function that runs as a goroutine: the delete/add workers of a commit run in parallel, one per
+// group of transactions, and would decode into the same record.
+func c11StaticDecoder(r *core.Run, p *core.Program, rule string) {
+	const key = "static-decoder-single-threaded"
+	// the decoders: functions that hand out the address of a package-level UtxoRec
+	static := map[*ssa.Function]bool{}
+	for _, fn := range p.ModuleFuncs() {
+		if !strings.Contains(core.FuncName(fn), "lib/utxo.") {
+			continue
+		}
+		an.Instrs(fn, func(i ssa.Instruction) {
+			if ret, ok := i.(*ssa.Return); ok {
+				for _, v := range ret.Results {
+					if g, ok := v.(*ssa.Global); ok && strings.HasSuffix(an.TypeName(an.Deref(g.Type())), "utxo.UtxoRec") {
+						static[fn] = true
+					}
+				}
+			}
+		})
+	}
+	if len(static) == 0 {
+		r.Fail(rule, key, "-", "no decoder into a package-level record found (NewUtxoRecStatic)")
+		return
+	}
+	// goroutine bodies in the packages that work on the set
+	var roots []*ssa.Function
+	for _, fn := range p.ModuleFuncs() {
+		n := core.FuncName(fn)
+		if !(strings.Contains(n, "lib/utxo.") || strings.Contains(n, "lib/chain.") || strings.Contains(n, "client/wallet.")) {
+			continue
+		}
+		an.Instrs(fn, func(i ssa.Instruction) {
+			if g, ok := i.(*ssa.Go); ok {
+				if cal := an.StaticCallee(g); cal != nil {
+					roots = append(roots, cal)
+				} else if mc, ok := g.Call.Value.(*ssa.MakeClosure); ok {
+					if f, ok := mc.Fn.(*ssa.Function); ok {
+						roots = append(roots, f)
+					}
+				}
+			}
+		})
+	}
+	var bad []string
+	for _, rt := range roots {
+		reach := an.StaticReach([]*ssa.Function{rt}, true, nil)
+		for f := range static {
+			if reach[f] {
+				bad = append(bad, core.FuncName(f)+" is reachable from the goroutine "+core.FuncName(rt)+" ("+p.Pos(rt.Pos())+")")
+			}
+		}
+	}
+	sort.Strings(bad)
+	bad = dedupStrings(bad)
+	r.Check(len(bad) == 0 && len(roots) >= 3, rule, key, "-", fmt.Sprintf("%d decoder(s) into the package-level record, reachable from none of the %d goroutine bodies of lib/utxo, lib/chain and client/wallet", len(static), len(roots)), strings.Join(bad, "; "))
 }
